@@ -164,7 +164,8 @@ Record opcheck := mk_ck {
   k_unnorm : list (list Q);                    (* per env, per channel: unnormalize_obs(returned observation) ([] = not checked) *)
   k_out_rews : list Q;                         (* per env: returned reward *)
   k_orig_obs : list (list Q);                  (* get_original_obs() *)
-  k_orig_rew : list Q }.                       (* get_original_reward() ([] after a reset) *)
+  k_orig_rew : list Q;                         (* get_original_reward() ([] after a reset) *)
+  k_unnorm_rews : list Q }.                    (* unnormalize_reward(returned rewards) ([] = not checked) *)
 
 Definition tol9 : Q := 1 # 1000000000.
 
@@ -220,11 +221,16 @@ Definition check_state (tol : Q) (p : vnp) (st : vn) (o : vnop) (k : opcheck) : 
     (* returned rewards *)
     all2 (fun r y => close5 (if v_norm_reward st then normalize_reward_s r sr (p_clip_rew p) else r) y) (op_rews o) (k_out_rews k)
     && (negb (v_norm_reward st) || Qle_bool 0 sr && qclose (1 # 100000000) 0 (r_var (v_ret_rms st) + p_eps p) (sr * sr));
-    (* unnormalize_obs of the returned observation *)
+    (* unnormalize_obs of the returned observation, unnormalize_reward of the returned rewards: the inverse expressions when the
+       flag is on, the identity when it is off *)
     match k_unnorm k with
     | [] => true
     | us => all2 (fun y u => vec_close (norm_unvec p (v_norm_obs st) (p_chans p) ms ss y) u) (k_out_obs k) us
-    end;
+    end
+    && match k_unnorm_rews k with
+       | [] => true
+       | us => all2 (fun y u => close5 (if v_norm_reward st then unnormalize_reward_s y sr else y) u) (k_out_rews k) us
+       end;
     (* get_original_obs / get_original_reward = the raw values of the latest step (old_obs / old_reward of the model) *)
     is_set o || (all2 vec_eq (v_old_obs st) (k_orig_obs k) && (match o with OStep _ _ _ => vec_eq (v_old_rew st) (k_orig_rew k) | _ => true end)) ].
 
